@@ -288,10 +288,14 @@ func c12PathChild(tag []byte, i uint32) []byte {
 // address at index i >= G was only ever issued if one of the G addresses before it was used). With any index
 // hint, the restored wallet's next external index is beyond every used address, and the public key of every
 // address up to there is stored: the restore finds every address that ever received funds.
-func VerifC12RestoreScan() {
-	G := uint32(rt.NondetLen(2, 3))
-	const K = 6
-	var used [K]bool
+func VerifC12RestoreScan() { c12RestoreScan(6, 3) }
+
+// deeper: the first 8 addresses, gap limit up to 4
+func VerifC12RestoreScanDeep() { c12RestoreScan(8, 4) }
+
+func c12RestoreScan(K int, maxG int) {
+	G := uint32(rt.NondetLen(2, maxG))
+	used := make([]bool, K)
 	last := -1
 	for i := 0; i < K; i++ {
 		used[i] = rt.NondetBool()
@@ -321,7 +325,7 @@ func VerifC12RestoreScan() {
 		// script hash = 0xee || tag: the last two indexes of the path are branch and address index
 		branch := binary.BigEndian.Uint32(sh[1+25 : 1+29])
 		idx := binary.BigEndian.Uint32(sh[1+29 : 1+33])
-		if branch != ExternalBranch || idx >= K {
+		if branch != ExternalBranch || idx >= uint32(K) {
 			return false, nil
 		}
 		return used[idx], nil
